@@ -74,7 +74,8 @@ def plans(tier):
          ("leafvar11", "1.1", "LeafVar", var, ["1.1"]),
          ("leafvarf10", "1.0", "LeafVarF", var + ["f"], ["1.0"]),
          ("leafvarf11", "1.1", "LeafVarF", var + ["f"], ["1.1"]),
-         ("mid3", "1.0", "Mid3", ab, ["1.0", "1.1"])]
+         ("mid3", "1.0", "Mid3", ab, ["1.0", "1.1"]),
+         ("multihead11", "1.1", "MultiHead", ["b", "p", "q", "r"], ["1.1"])]
     if tier == "thorough":
         p.append(("depth2", "1.0", "Depth2", ab, ["1.0", "1.1"]))
     return p
@@ -112,7 +113,7 @@ def run(ctx: Ctx, collect=None):
     ctx.exhaustive = True
     ctx.extra["per_scope"] = per_scope
     ctx.rule = ("every content model of the families of spec/ContentModel.tla (Depth1, Depth2Q, "
-                "Typed, AllQ, LeafVar; thorough adds Depth2) x schema class; a case is one strict "
+                "Typed, AllQ, LeafVar, LeafVarF, Mid3, MultiHead (1.1: two substitution heads sharing a member); thorough adds Depth2) x schema class; a case is one strict "
                 "build judged against the spec's UPA/EDC verdict")
     ctx.assumptions += [
         "UPA is decided on the configuration-set machine (all reachable residual sets) and "
@@ -122,7 +123,7 @@ def run(ctx: Ctx, collect=None):
 
 def replay(ctx: Ctx, case):
     m = case["model"]
-    syms = ["a", "b", "c", "m", "o"]
+    syms = ["a", "b", "c", "m", "o", "f", "p", "q", "r"]
     cls = det_universe(ctx, case["ver"], None, syms, "replay", [m])
     for ver, direction, detail in judge((m, cls[cm.mkey(m)], [case["ver"]])):
         ctx.report(dict(case, observed=detail), f"{ver}: {cm.model_str(m)}: {detail}")
